@@ -128,6 +128,16 @@ func (Enc) Marshal(msg drpc.Message) ([]byte, error) {
 	return nil, fmt.Errorf("payload.Enc: unsupported message %T", msg)
 }
 
+// MarshalAppend is the optional fast path the generated protobuf encodings have too. Like those, a
+// failed encode hands back the bytes it had appended so far together with its error.
+func (e Enc) MarshalAppend(buf []byte, msg drpc.Message) ([]byte, error) {
+	b, err := e.Marshal(msg)
+	if err != nil {
+		return append(buf, "bytes-of-a-message-that-failed-to-encode"...), err
+	}
+	return append(buf, b...), nil
+}
+
 // Unmarshal implements drpc.Encoding. It copies, as every real decoder does:
 // the buffer belongs to the stream and is reused after Unmarshal returns.
 func (Enc) Unmarshal(buf []byte, msg drpc.Message) error {
